@@ -58,9 +58,51 @@ PROBES = {
     "if-newline": ("format", "x = if aaaaaaaaaa then 1 else 2", 10),
     "do-comment": ("format", "do {\n  q = 1// c2\n  return q\n}", 0),
     "crlf-lines": ("format", "xs = [1]\nr = xs via x => \"a\r\nb\"", 0),
+    "inf-literal": ("format", "x = 1e999", 0),
 }
 PARENS_CLASSES = ["unary-operand", "postfix-operand", "open-left", "binary-right", "binary-left", "lambda-body"]
 WIDTHS_QUICK = [0, 1, 8, 20, 40]
+
+# NUMBER-LEAVES family (round 7, after seed C07-11: integral literals >= 2^63 printed through `as i64`): number
+# literals from the boundary classes of the printer's integer / decimal / exponent branches, in every position a
+# number can take.  The literals of NUMLEAF_OVERFLOW denote +-infinity (class "inf-literal").
+NUMLEAF_POOL = [
+    "9007199254740991", "9007199254740992", "9007199254740993", "999999999999999", "1000000000000000",
+    "1e15", "1e16", "9223372036854775807", "9223372036854775808", "9223372036854777856", "1e19",
+    "18446744073709551615", "18446744073709551616", "36893488147419103232", "1e21", "1e22", "1e23",
+    "123456789012345678901234567890", "602214076000000000000000", "1.5e300", "1e308", "1.7976931348623157e308",
+    "0xFFFFFFFFFFFFFFFF", "0x8000000000000000", "0x7FFFFFFFFFFFFFFF", "0x10000000000000000",
+    "0b1" + "0" * 63, "0b1" + "0" * 64, "0b" + "1" * 64,
+    "4.9e-324", "5e-324", "2.2250738585072014e-308", "1e-7", "0.000001", "1.0000000000000002", "0.1",
+    "0.30000000000000004", "123456.789e3", "4503599627370496.5", "4503599627370497.5", "0.5", "2.5e-10",
+    "1_000_000_000_000_000_000_000", "100000000000000000000.0", "0.0", "00012", "1.e3" ]
+NUMLEAF_OVERFLOW = ["1e999", "1e309", "1.8e308", "2e308"]
+NUMLEAF_CONTEXTS = ["x = %s", "%s", "x = -%s", "x = [%s, 1]", "x = {k: %s}", "x = f(%s)", "x = a + %s * 2",
+                    "g = y => y + %s", "x = if c then %s else 0", "x = %s / %s",
+                    "x = do {\n  t = %s\n  return t\n}", "x = [1, 2] via (e => e + %s)", "x = l[%s]", "x = %s!"]
+
+
+def numleaf_family():
+    out = []
+    for lit in NUMLEAF_POOL + NUMLEAF_OVERFLOW:
+        for ctx in NUMLEAF_CONTEXTS:
+            out.append(ctx.replace("%s", lit))
+    return out
+
+
+_OVERFLOW_LIT = re.compile(r"(?<![\w.])(\d[\d_]*(?:\.\d*)?(?:[eE][+-]?\d+)?)")
+
+
+def has_overflow_literal(src):
+    """a decimal number token whose value is +-infinity (1e999): printed as the identifier `inf`"""
+    for m in _OVERFLOW_LIT.finditer(src):
+        t = m.group(1).replace("_", "")
+        try:
+            if float(t) == float("inf"):
+                return True
+        except ValueError:
+            pass
+    return False
 
 
 def hx(s):
@@ -118,6 +160,8 @@ def format_classes(src, r):
         cl.add("if-newline")
     if crlf_lines(src):
         cl.add("crlf-lines")
+    if has_overflow_literal(src):
+        cl.add("inf-literal")
     return cl
 
 
@@ -779,6 +823,10 @@ def main(argv):
     for sx in CRLF_FAMILY:
         for w in WIDTHS_QUICK + [30, 1 + rng.below(120)]:
             fcases.append((sx, w))
+    numleaf = numleaf_family()
+    for sx in numleaf:
+        for w in (0, 12):
+            fcases.append((sx, w))
     fr = run_format(h, fcases)
     n_eval += len(fcases)
     # classes of the inputs (from the AST, by the harness twin of Printer.v known_classes)
@@ -815,7 +863,8 @@ def main(argv):
     # (c) the real binary on a sample (one process per file)
     ncli = 1200 if tier == "quick" else 12000
     cli_cases = ([fam[rng.below(len(fam))] for _ in range(ncli // 4)] + fam3[: ncli // 4] + progs[: ncli // 4]
-                 + evprogs[: ncli // 4] + ctx_progs[:: (3 if tier == "quick" else 1)])
+                 + evprogs[: ncli // 4] + ctx_progs[:: (3 if tier == "quick" else 1)]
+                 + numleaf[:: (4 if tier == "quick" else 1)])
     cli_ok = cli_bad = cli_rej = 0
     os.makedirs(c.BUILD, exist_ok=True)
     with tempfile.TemporaryDirectory(dir=c.BUILD) as td:
@@ -846,6 +895,8 @@ def main(argv):
                 cl.add("if-newline")
             if crlf_lines(pairs[k][0]):
                 cl.add("crlf-lines")
+            if has_overflow_literal(pairs[k][0]):
+                cl.add("inf-literal")
             classify_and_report("format", pairs[k][0], 0, cl, {"binary_output": pairs[k][1][:2000], "reparse": eqs[k]},
                                 "cli-binary")
     n_eval += len(cli_cases)
@@ -853,6 +904,8 @@ def main(argv):
                                     "evaluation_same": ev_same, "evaluation_diff": ev_diff,
                                     "cli_binary_cases": len(cli_cases), "cli_same": cli_ok, "cli_diff": cli_bad,
                                     "cli_input_rejected": cli_rej,
+                                    "number_leaves_family": {"programs": len(numleaf), "literals": len(NUMLEAF_POOL) + len(NUMLEAF_OVERFLOW),
+                                                             "overflow_literals": len(NUMLEAF_OVERFLOW), "contexts": len(NUMLEAF_CONTEXTS)},
                                     "failures_covered_by_open_findings": failures,
                                     "tree_kinds": dict(sorted(tg.stats.items())[:60]),
                                     "eval_program_stats": evgen.stats}
